@@ -4,6 +4,9 @@ prove that each check is sensitive. Each is a textual replacement applied to a s
 CR = "pint/facets/context/registry.py"
 CO = "pint/facets/context/objects.py"
 UT = "pint/util.py"
+PR = "pint/facets/plain/registry.py"
+SR = "pint/facets/system/registry.py"
+GO = "pint/facets/group/objects.py"
 
 MUTANTS = [
     # ------------------------------------------------------------------ C12
@@ -99,4 +102,114 @@ MUTANTS = [
     {"prop": "C11", "name": "compat-units-ignores-context", "file": CR,
      "old": "        if self._active_ctx:\n            ret = ret.copy()  # Do not alter self._cache\n",
      "new": "        if self._active_ctx and len(self._active_ctx.contexts) < 2:\n            ret = ret.copy()  # Do not alter self._cache\n"},
+    # ------------------------------------------------------------------ C13
+    {"prop": "C13", "name": "factor-memo-under-swapped-key", "file": PR,
+     "old": "        cache[(src, dst)] = factor\n", "new": "        cache[(dst, src)] = factor\n"},
+    {"prop": "C13", "name": "default-system-none-keeps-memo", "file": SR,
+     "old": "                raise ValueError(\"Unknown system %s\" % name)\n\n        self._base_units_cache = {}\n",
+     "new": "                raise ValueError(\"Unknown system %s\" % name)\n\n            self._base_units_cache = {}\n"},
+    {"prop": "C13", "name": "parse-memo-not-dropped-on-define", "file": PR,
+     "old": "            self._cache.parse_unit.pop(key, None)\n", "new": "            pass\n"},
+    {"prop": "C13", "name": "base-memo-written-for-any-system", "file": SR,
+     "old": "        if check_nonmult and system == self._default_system_name:\n            # the memo belongs",
+     "new": "        if check_nonmult:\n            # the memo belongs"},
+    {"prop": "C13", "name": "dimensionality-memo-per-object-only", "file": "pint/facets/plain/quantity.py",
+     "old": "        if memo is None or memo[0] is not self._units:\n", "new": "        if memo is None:\n"},
+    {"prop": "C13", "name": "system-members-never-invalidated", "file": GO,
+     "old": "        for system in getattr(self._REGISTRY, \"_systems\", {}).values():\n            system.invalidate_members()\n",
+     "new": ""},
+    {"prop": "C13", "name": "prefixed-unit-registered-in-overlay", "file": PR,
+     "old": "            if isinstance(units, ChainMap) and unit_name in units.maps[-1]:\n                units = units.maps[-1]\n",
+     "new": ""},
+    {"prop": "C13", "name": "dimensionality-memo-shared-with-overlay-stale", "file": CR,
+     "old": "        self.dimensionality = registry_cache.dimensionality\n        self.parse_unit = registry_cache.parse_unit\n        self.conversion_factor = {}\n",
+     "new": "        self.dimensionality = registry_cache.dimensionality\n        self.parse_unit = registry_cache.parse_unit\n        self.conversion_factor = registry_cache.conversion_factor\n"},
+    # ------------------------------------------------------------------ C14
+    {"prop": "C14", "name": "invalidation-not-propagated-upwards", "file": GO,
+     "old": "        for name in self._used_by:\n            d[name].invalidate_members()\n", "new": ""},
+    {"prop": "C14", "name": "remove-groups-keeps-used-by", "file": GO,
+     "old": "                grp._used_by.remove(self.name)\n", "new": "                pass\n"},
+    {"prop": "C14", "name": "system-members-never-invalidated", "file": GO,
+     "old": "        for system in getattr(self._REGISTRY, \"_systems\", {}).values():\n            system.invalidate_members()\n",
+     "new": ""},
+    {"prop": "C14", "name": "default-group-takes-all-units", "file": "pint/facets/group/registry.py",
+     "old": "            grp.add_units(*(all_units - group_units))\n", "new": "            grp.add_units(*all_units)\n"},
+    {"prop": "C14", "name": "rule-inversion-minus-one-over-b", "file": "pint/facets/system/objects.py",
+     "old": "                    other_unit: -value / new_unit_expanded[old_unit]\n", "new": "                    other_unit: -1 / value\n"},
+    {"prop": "C14", "name": "system-attribute-ignores-variant", "file": "pint/facets/system/objects.py",
+     "old": "        u = getattr(self._REGISTRY, self.name + \"_\" + item, None)\n", "new": "        u = None\n"},
+    {"prop": "C14", "name": "base-memo-written-for-any-system", "file": SR,
+     "old": "        if check_nonmult and system == self._default_system_name:\n            # the memo belongs",
+     "new": "        if check_nonmult:\n            # the memo belongs"},
+    {"prop": "C14", "name": "partial-edit-without-invalidation", "file": GO,
+     "old": "        try:\n            for unit_name in unit_names:\n                self._unit_names.remove(unit_name)\n        finally:\n            # also when a name is not present: the ones before it are gone\n            self.invalidate_members()\n",
+     "new": "        for unit_name in unit_names:\n            self._unit_names.remove(unit_name)\n        self.invalidate_members()\n"},
+    {"prop": "C14", "name": "restricted-compat-ignores-system", "file": SR,
+     "old": "            return frozenset(members & super()._get_compatible_units(input_units))\n",
+     "new": "            return frozenset(super()._get_compatible_units(input_units))\n"},
+    # ------------------------------------------------------------------ C08
+    {"prop": "C08", "name": "plural-of-one-letter-stems", "file": PR,
+     "old": "                    if len(name) == 1:\n                        continue\n", "new": ""},
+    {"prop": "C08", "name": "dedup-prefers-unprefixed", "file": PR,
+     "old": "                candidates.pop((\"\", cp + cu, \"\"), None)\n",
+     "new": "                if (\"\", cp + cu, \"\") in candidates:\n                    candidates.pop((cp, cu, cs), None)\n"},
+    {"prop": "C08", "name": "prefixed-unit-registered-without-factor", "file": PR,
+     "old": "                prefix_def.converter,\n", "new": "                self._prefixes[\"\"].converter,\n"},
+    {"prop": "C08", "name": "alias-not-in-case-insensitive-index", "file": PR,
+     "old": "            self._helper_single_adder(alias, unit, self._units, self._units_casei)\n",
+     "new": "            self._helper_single_adder(alias, unit, self._units, None)\n"},
+    {"prop": "C08", "name": "registered-prefixed-units-decomposed-again", "file": PR,
+     "old": "                        if (prefix or suffix) and name in self._prefixed_units:\n", "new": "                        if False:\n"},
+    {"prop": "C08", "name": "parse-memo-without-unit-table-guard", "file": PR,
+     "old": "        if as_delta and input_string in cache and input_string in self._units:\n",
+     "new": "        if as_delta and input_string in cache:\n"},
+    {"prop": "C08", "name": "symbol-from-decomposition-only", "file": PR,
+     "old": "        try:\n            # a defined name, symbol or alias denotes that unit (as in get_name)\n            return self._units[name_or_alias].symbol\n        except KeyError:\n            pass\n\n",
+     "new": ""},
+    {"prop": "C08", "name": "case-insensitive-set-order", "file": PR,
+     "old": "                        key=lambda real_name: (real_name != name, real_name),\n",
+     "new": "                        key=lambda real_name: (real_name == name, real_name),\n"},
+    # ------------------------------------------------------------------ C10
+    {"prop": "C10", "name": "warm-cache-not-installed", "file": PR,
+     "old": "            else:\n                self._cache = cache\n            return\n", "new": "            return\n"},
+    {"prop": "C10", "name": "cache-name-without-numeric-type", "file": "pint/delegates/base_defparser.py",
+     "old": "        non_int_type: str = chosen_non_int_type.__qualname__\n", "new": "        non_int_type: str = \"any\"\n"},
+    {"prop": "C10", "name": "cache-name-without-path", "file": "pint/delegates/base_defparser.py",
+     "old": "            yield bytes(self.source_path.resolve())\n", "new": "            return\n"},
+    {"prop": "C10", "name": "underscore-placeholder-as-symbol", "file": "pint/delegates/txt_defparser/plain.py",
+     "old": "        if aliases:\n            if aliases[0] == \"_\":\n                aliases = aliases[1:]\n            else:\n                defined_symbol, *aliases = aliases\n\n            aliases = tuple(alias for alias in aliases if alias not in (\"\", \"_\"))\n\n        if \";\" in value:",
+     "new": "        if aliases:\n            defined_symbol, *aliases = aliases\n\n            aliases = tuple(alias for alias in aliases if alias not in (\"\", \"_\"))\n\n        if \";\" in value:"},
+    {"prop": "C10", "name": "modifiers-dropped", "file": "pint/delegates/txt_defparser/plain.py",
+     "old": "            converter = Converter.from_arguments(scale=converter.scale, **modifiers)\n",
+     "new": "            converter = Converter.from_arguments(scale=converter.scale)\n"},
+    {"prop": "C10", "name": "empty-value-reads-as-one", "file": "pint/delegates/base_defparser.py",
+     "old": "        if not s.strip():\n            # an empty string evaluates to the neutral element 1: it is not a number\n            raise NotNumeric(s)\n",
+     "new": ""},
+    {"prop": "C10", "name": "project-cache-keyed-by-main-file", "file": "pint/delegates/base_defparser.py",
+     "old": "                for stmt in pp.iter_statements()\n                if isinstance(stmt, fp.BOS)\n",
+     "new": "                for stmt in list(pp.iter_statements())[:1]\n                if isinstance(stmt, fp.BOS)\n"},
+    {"prop": "C10", "name": "last-alias-dropped", "file": "pint/delegates/txt_defparser/plain.py",
+     "old": "            aliases = tuple(alias for alias in aliases if alias not in (\"\", \"_\"))\n\n        if \";\" in value:",
+     "new": "            aliases = tuple(alias for alias in aliases if alias not in (\"\", \"_\"))[:1]\n\n        if \";\" in value:"},
+    # ------------------------------------------------------------------ C18
+    {"prop": "C18", "name": "unpickle-does-not-register-prefixed-units", "file": "pint/__init__.py",
+     "old": "            for name in arg:\n                application_registry.parse_units(name)\n", "new": "            pass\n"},
+    {"prop": "C18", "name": "deepcopy-keeps-groups-of-source", "file": "pint/facets/group/registry.py",
+     "old": "        for grp in new._groups.values():\n            grp.__class__ = new.Group\n", "new": ""},
+    {"prop": "C18", "name": "exception-reduce-drops-field", "file": "pint/errors.py",
+     "old": "            self.dim2,\n            self.extra_msg,\n", "new": "            self.dim2,\n"},
+    {"prop": "C18", "name": "registry-check-by-class-name", "file": UT,
+     "old": "        if self._REGISTRY is getattr(other, \"_REGISTRY\", None):\n",
+     "new": "        if type(self._REGISTRY) is type(getattr(other, \"_REGISTRY\", None)):\n"},
+    {"prop": "C18", "name": "compare-skips-registry-check", "file": "pint/facets/plain/quantity.py",
+     "old": "        if self._REGISTRY is not other._REGISTRY:\n            mess = \"Cannot operate with {} and {} of different registries.\"\n",
+     "new": "        if False:\n            mess = \"Cannot operate with {} and {} of different registries.\"\n"},
+    {"prop": "C18", "name": "lazy-registry-with-other-settings", "file": "pint/registry.py",
+     "old": "        kwargs[\"on_redefinition\"] = \"raise\"\n", "new": "        kwargs[\"on_redefinition\"] = \"raise\"\n        kwargs[\"system\"] = \"SI\"\n"},
+    {"prop": "C18", "name": "unitscontainer-setstate-keeps-hash", "file": UT,
+     "old": "        self._d, self._one, self._non_int_type = state\n        self._hash = None\n",
+     "new": "        self._d, self._one, self._non_int_type = state\n        self._hash = hash(frozenset())\n"},
+    {"prop": "C18", "name": "deepcopy-shares-unit-table", "file": PR,
+     "old": "        new.__dict__ = copy.deepcopy(self.__dict__, memo)\n        new._init_dynamic_classes()\n",
+     "new": "        new.__dict__ = copy.deepcopy(self.__dict__, memo)\n        new._units = self._units\n        new._init_dynamic_classes()\n"},
 ]
